@@ -223,7 +223,10 @@ func Judge(e *rt.Entry, sc *prog.Scenario, x *rt.Exec) []Viol {
 		j.add(uniq("C03"), "%d user functions were executing at once; the limit is %d (Concurrency(%d))", x.HWM.Load(), lim, sc.Conc)
 	}
 	if x.BadStates.Load() > 0 {
-		j.add(uniq("C19"), "%d scheduler state reports received through cff.Emitter are inconsistent", x.BadStates.Load())
+		j.add(uniq("C19"), "%d scheduler state reports received through cff.SchedulerEmitter are inconsistent, first: %s", x.BadStates.Load(), x.FirstBadState)
+	}
+	if x.Ret == nil && x.Escaped == nil && !j.cancelled && x.LastStateExit.Load() > x.RunEnd {
+		j.add(uniq("C19"), "a scheduler state report was still being delivered (EmitScheduler returned at t=%d) after the directive had returned nil (t=%d)", x.LastStateExit.Load(), x.RunEnd)
 	}
 	// ---- every call ended before a nil return --------------------------------
 	if x.Ret == nil && x.Escaped == nil {
